@@ -1,8 +1,202 @@
-(* C17 - voting engines. Property theorems only; proofs live in Proofs/VotingProofs.v, Proofs/AssignProofs.v. *)
-From Coq Require Import List NArith ZArith QArith Bool.
+(* C17 - The voting engines turn a stream of (query, track, distance) results into winners in a way that does not
+   depend on the order of the stream.
+   Property theorems only; proofs live in Proofs/VotingProofs.v (top-N, best fit) and Proofs/AssignProofs.v (Hungarian).
+
+   Reading guide.  s : list dist is the stream; counted_dists maxd q t s are the distances of the pair (q, t) that do not
+   exceed max_distance, in stream order ("the counted distances"); max_dist s is the largest distance seen in the whole
+   stream (or -1 for a stream without distances); qsum md c = sum over c of (md - e).  A result is a list of
+   (query, list of (track, weight)); [assoc] reads it as a finite map (the Rust code returns a HashMap).
+   cands maxd minv s are the (query, track, weight) triples with at least min_votes (and at least one) counted distance.
+   Weights are canonical rationals, so "=" on weights is equality of numbers. *)
+From Coq Require Import List NArith ZArith QArith Bool Permutation Sorted.
 From Similari Require Import Base.Num Model.Assign Model.Voting Proofs.AssignProofs Proofs.VotingProofs.
 Import ListNotations.
+Local Close Scope Q_scope.
+Local Open Scope nat_scope.
 
-Example c17_nonvacuous_topn :
-  topn_voting 5 (8#25) 1 [mk 0 1 (Some (1#5)); mk 0 1 (Some (2#5))] = [(0%N, [(1%N, 1#5)])].
-Proof. vm_compute. reflexivity. Qed.
+(* ---- top-N voting ------------------------------------------------------------------------------------------- *)
+
+(* at most N tracks per query *)
+Theorem topn_at_most_n :
+  forall n maxd minv s q l, In (q, l) (topn_voting n maxd minv s) -> length l <= n.
+Proof. exact topn_at_most_n_lemma. Qed.
+
+(* only tracks having at least min_votes (and at least one) distances not exceeding max_distance *)
+Theorem topn_min_votes :
+  forall n maxd minv s q l t w, In (q, l) (topn_voting n maxd minv s) -> In (t, w) l ->
+    minv <= length (counted_dists maxd q t s) /\ 1 <= length (counted_dists maxd q t s).
+Proof. exact topn_min_votes_lemma. Qed.
+
+(* ordered by decreasing weight *)
+Theorem topn_sorted :
+  forall n maxd minv s q l, In (q, l) (topn_voting n maxd minv s) ->
+    StronglySorted (fun a b => (snd b <= snd a)%Q) l.
+Proof. exact topn_sorted_lemma. Qed.
+
+(* the weight is the sum over the counted distances of (largest distance seen - distance) ... *)
+Theorem weight_formula :
+  forall n maxd minv s q l t w, In (q, l) (topn_voting n maxd minv s) -> In (t, w) l ->
+    (w == qsum (max_dist s) (counted_dists maxd q t s))%Q.
+Proof. exact weight_formula_lemma. Qed.
+
+(* ... where max_dist really is the largest distance of the stream: an upper bound that is attained (or -1) *)
+Theorem max_dist_is_largest :
+  forall s, (forall d e, In d s -> fd d = Some e -> (e <= max_dist s)%Q) /\
+            (max_dist s = (-1 # 1)%Q \/ exists d, In d s /\ fd d = Some (max_dist s)).
+Proof. exact max_dist_is_largest_lemma. Qed.
+
+(* "top": an eligible track of the query that is not listed is not heavier than any listed one, and the list is full;
+   every query with an eligible track has an entry; every query at most once *)
+Theorem topn_takes_heaviest :
+  forall n maxd minv s q l t w, In (q, l) (topn_voting n maxd minv s) -> In (q, t, w) (cands maxd minv s) -> ~ In (t, w) l ->
+    length l = n /\ forall t' w', In (t', w') l -> (w <= w')%Q.
+Proof. exact topn_takes_heaviest_lemma. Qed.
+
+Theorem topn_query_listed :
+  forall n maxd minv s q t w, In (q, t, w) (cands maxd minv s) -> exists l, In (q, l) (topn_voting n maxd minv s).
+Proof. exact topn_query_listed_lemma. Qed.
+
+Theorem topn_one_entry_per_query : forall n maxd minv s, NoDup (map fst (topn_voting n maxd minv s)).
+Proof. exact topn_keys_NoDup. Qed.
+
+(* what "eligible" means: cands is exactly the set of pairs with enough counted distances, with the weight above *)
+Theorem cands_characterised :
+  forall maxd minv s q t w, In (q, t, w) (cands maxd minv s) <->
+    counted_dists maxd q t s <> [] /\ minv <= length (counted_dists maxd q t s)
+    /\ w = weight (max_dist s) (counted_dists maxd q t s).
+Proof. exact cands_In. Qed.
+
+(* ORDER INDEPENDENCE: for any permutation of the stream, if no two eligible tracks of one query have equal weights,
+   the result is the same finite map *)
+Theorem topn_perm_invariant :
+  forall n maxd minv s s', Permutation s s' -> topn_distinct maxd minv s ->
+    forall q, assoc N.eqb q (topn_voting n maxd minv s) = assoc N.eqb q (topn_voting n maxd minv s').
+Proof. exact topn_perm_invariant_lemma. Qed.
+
+(* ---- best-fit voting ---------------------------------------------------------------------------------------- *)
+(* ids_disjoint s: query ids and track ids are different numbers (otherwise "the query itself" cannot be told from a
+   track).  An entry (t, w) of query q with t <> q is an award of track t; an entry (q, w) is a lost claim. *)
+
+(* each track is awarded to at most one query *)
+Theorem bestfit_one_winner_per_track :
+  forall maxd minv s q1 q2 l1 l2 t w1 w2, ids_disjoint s ->
+    In (q1, l1) (best_fit_voting maxd minv s) -> In (q2, l2) (best_fit_voting maxd minv s) ->
+    In (t, w1) l1 -> In (t, w2) l2 -> t <> q1 -> t <> q2 -> q1 = q2 /\ w1 = w2.
+Proof. exact bestfit_one_winner_per_track_lemma. Qed.
+
+(* ... the one with the greatest weight among all queries eligible for it (and the awardee is itself eligible) *)
+Theorem bestfit_winner_is_max :
+  forall maxd minv s q l t w, ids_disjoint s ->
+    In (q, l) (best_fit_voting maxd minv s) -> In (t, w) l -> t <> q ->
+    In (q, t, w) (cands maxd minv s) /\ forall q' w', In (q', t, w') (cands maxd minv s) -> (w' <= w)%Q.
+Proof. exact bestfit_winner_is_max_lemma. Qed.
+
+(* every claimed track is awarded to somebody; every eligible pair is answered (award or lost claim) with its weight;
+   nothing else is in the result; per query the entries are ordered by decreasing weight *)
+Theorem bestfit_track_awarded :
+  forall maxd minv s q t w, In (q, t, w) (cands maxd minv s) ->
+    exists q' l' w', In (q', l') (best_fit_voting maxd minv s) /\ In (t, w') l' /\ In (q', t, w') (cands maxd minv s).
+Proof. exact bestfit_track_awarded_lemma. Qed.
+
+Theorem bestfit_every_candidate_answered :
+  forall maxd minv s q t w, In (q, t, w) (cands maxd minv s) ->
+    exists l, In (q, l) (best_fit_voting maxd minv s) /\ (In (t, w) l \/ In (q, w) l).
+Proof. exact bestfit_every_candidate_answered_lemma. Qed.
+
+Theorem bestfit_entry_origin :
+  forall maxd minv s q l t w, In (q, l) (best_fit_voting maxd minv s) -> In (t, w) l ->
+    In (q, t, w) (cands maxd minv s) \/ (t = q /\ exists t0, In (q, t0, w) (cands maxd minv s)).
+Proof. exact bestfit_entry_origin_lemma. Qed.
+
+Theorem bestfit_sorted :
+  forall maxd minv s q l, In (q, l) (best_fit_voting maxd minv s) -> StronglySorted (fun a b => (snd b <= snd a)%Q) l.
+Proof. exact bestfit_sorted_lemma. Qed.
+
+(* ORDER INDEPENDENCE: for any permutation of the stream, if no two COMPARABLE eligible pairs (same query or same
+   track) have equal weights, the result is the same finite map *)
+Theorem bestfit_perm_invariant :
+  forall maxd minv s s', Permutation s s' -> bestfit_distinct_cmp maxd minv s ->
+    forall q, assoc N.eqb q (best_fit_voting maxd minv s) = assoc N.eqb q (best_fit_voting maxd minv s').
+Proof. exact bestfit_perm_invariant_cmp_lemma. Qed.
+
+(* ... and if all eligible pairs have pairwise distinct weights, even the same list *)
+Theorem bestfit_perm_invariant_list :
+  forall maxd minv s s', Permutation s s' -> bestfit_distinct maxd minv s ->
+    best_fit_voting maxd minv s = best_fit_voting maxd minv s'.
+Proof. exact bestfit_perm_invariant_lemma. Qed.
+
+(* ---- Hungarian voting (SortVoting) ---------------------------------------------------------------------------- *)
+(* km is the kuhn_munkres oracle, assumed to return an optimal assignment of the one matrix it is given; thr > 0;
+   query ids and track ids disjoint; the declared number of tracks covers the tracks of the stream. *)
+
+(* for every query that appears in the stream: exactly one entry, a track of the stream or the query itself *)
+Theorem hungarian_total :
+  forall (km : matrix -> list nat) thr n cols s W,
+    (0 < thr)%Z -> ids_disj s -> length (tos s) <= cols ->
+    (forall m idx, pad_matrix thr n cols s = Some (m, idx) ->
+                   is_assignment (length m) (ncols m) (km m) /\ optimal m (km m)) ->
+    sort_voting km thr n cols s = Some W ->
+    forall f, In f (froms s) ->
+      exists t, In (f, t) W /\ (t = f \/ In t (tos s)) /\ forall t', In (f, t') W -> t' = t.
+Proof. exact hungarian_total_lemma. Qed.
+
+(* and no track twice (nor anything for a query that is not in the stream) *)
+Theorem hungarian_no_track_twice :
+  forall (km : matrix -> list nat) thr n cols s W,
+    (0 < thr)%Z -> ids_disj s -> length (tos s) <= cols ->
+    (forall m idx, pad_matrix thr n cols s = Some (m, idx) ->
+                   is_assignment (length m) (ncols m) (km m) /\ optimal m (km m)) ->
+    sort_voting km thr n cols s = Some W -> NoDup (map snd W).
+Proof. exact hungarian_no_track_twice_lemma. Qed.
+
+Theorem hungarian_only_queries :
+  forall (km : matrix -> list nat) thr n cols s W,
+    (0 < thr)%Z -> ids_disj s -> length (tos s) <= cols ->
+    (forall m idx, pad_matrix thr n cols s = Some (m, idx) ->
+                   is_assignment (length m) (ncols m) (km m) /\ optimal m (km m)) ->
+    sort_voting km thr n cols s = Some W -> forall f t, In (f, t) W -> In f (froms s).
+Proof. exact hungarian_only_queries_lemma. Qed.
+
+(* ---- non-vacuity ---------------------------------------------------------------------------------------------- *)
+(* the repository's unit-test stream, moved to a dyadic grid: two queries, three tracks each, N = 2 *)
+Definition ex_stream : list dist :=
+  [mk 100 1 (Some (1#4)); mk 100 1 (Some (9#32)); mk 100 2 (Some (17#64)); mk 100 2 (Some (1#4));
+   mk 100 3 (Some (9#32)); mk 100 3 (Some (5#16)); mk 107 1 (Some (19#64)); mk 107 1 (Some (5#16));
+   mk 107 2 (Some (1#2)); mk 107 3 None]%Q.
+
+Example c17_nonvacuous :
+  topn_voting 2 (5#16) 1 ex_stream = [(100%N, [(2%N, 31#64); (1%N, 15#32)]); (107%N, [(1%N, 25#64)])]%Q /\
+  best_fit_voting (5#16) 1 ex_stream
+    = [(100%N, [(2%N, 31#64); (1%N, 15#32); (3%N, 13#32)]); (107%N, [(107%N, 25#64)])]%Q /\
+  topn_distinct (5#16) 1 ex_stream /\ bestfit_distinct (5#16) 1 ex_stream /\ ids_disjoint ex_stream /\
+  topn_voting 2 (5#16) 1 (rev ex_stream) = [(107%N, [(1%N, 25#64)]); (100%N, [(2%N, 31#64); (1%N, 15#32)])]%Q.
+Proof.
+  split; [vm_compute; reflexivity|]. split; [vm_compute; reflexivity|].
+  assert (cands (5#16) 1 ex_stream = [(100%N, 1%N, 15#32); (100%N, 2%N, 31#64); (100%N, 3%N, 13#32); (107%N, 1%N, 25#64)]%Q) as E
+    by (vm_compute; reflexivity).
+  split; [|split; [|split]].
+  - unfold topn_distinct. rewrite E. intros q t1 t2 w1 w2 H1 H2 Hw.
+    cbn [In] in H1, H2.
+    repeat match goal with H : _ \/ _ |- _ => destruct H as [H|H] end;
+      try contradiction; inversion H1; inversion H2; subst; try reflexivity; try discriminate;
+      exfalso; revert Hw; unfold Qeq; cbn; discriminate.
+  - unfold bestfit_distinct. rewrite E. intros c1 c2 H1 H2 Hw.
+    cbn [In] in H1, H2.
+    repeat match goal with H : _ \/ _ |- _ => destruct H as [H|H] end;
+      try contradiction; subst; try reflexivity; exfalso; revert Hw; unfold Qeq; cbn; discriminate.
+  - intros d d' Hd Hd'. cbn [ex_stream In] in Hd, Hd'.
+    repeat match goal with H : _ \/ _ |- _ => destruct H as [H|H] end; try contradiction; subst; cbn; discriminate.
+  - vm_compute. reflexivity.
+Qed.
+
+(* Hungarian: the instance of Props/C02.v (greedy differs from optimal), with an oracle that returns the certified
+   optimal assignment *)
+Example c17_nonvacuous_hungarian :
+  sort_voting (fun _ => [3; 2]) 30%Z 2 2 [(10%N, 1%N, 60%Z); (10%N, 2%N, 50%Z); (11%N, 1%N, 55%Z)]
+    = Some [(10%N, 2%N); (11%N, 1%N)] /\
+  (forall m idx, pad_matrix 30%Z 2 2 [(10%N, 1%N, 60%Z); (10%N, 2%N, 50%Z); (11%N, 1%N, 55%Z)] = Some (m, idx) ->
+                 is_assignment (length m) (ncols m) [3; 2] /\ optimal m [3; 2]).
+Proof.
+  split; [vm_compute; reflexivity|]. intros m idx H. vm_compute in H. inversion H; subst m idx.
+  apply (check_dual_sound_lemma _ [3; 2] [35; 30]%Z [0; 0; 25; 15]%Z). vm_compute. reflexivity.
+Qed.
